@@ -160,8 +160,15 @@ def e2_scenarios(tier):
   a = dict(kind="fifo", pending=0)
   b = dict(kind="fifo", pending=1, subscribe_first=False)
   if tier == "quick":
-    return [(a, 30)]
-  return [(a, 40), (b, 40), (dict(kind="lifo", pending=0), 40)]
+    # with an event already pending the publication arrives while the object's thread is busy with it (a wake-up may be lost there)
+    return [(a, 30), (dict(kind="fifo", pending=1), 30)]
+  return [(a, 40), (b, 40), (dict(kind="lifo", pending=0), 40), (dict(kind="fifo", pending=1), 42)]
+
+
+def deadlock_bound(kw, K):
+  """the quiescence query needs the whole life of the scenario (subscribe, post, publish, delivery, both dispatches and the object thread
+  back in its wait): 32 steps with one pending event; it is cheaper than the safety query, so it gets the larger bound"""
+  return max(K, 36) if kw.get("pending") else K
 
 
 DIFF_KW = dict(kind="fifo", pending=1, subscribe_first=False)
@@ -174,7 +181,7 @@ def e2_specs(tier):
   for (kw, K) in e2_scenarios(tier):
     out.append(dict(scenario="ao_pubsub", kwargs=kw, kind="reach", K=K + 10, pred="all_dispatched", timeout=to))
     out.append(dict(scenario="ao_pubsub", kwargs=kw, kind="safety", K=K, pred="c04_bad", timeout=to, replay="ao_pubsub_replay"))
-    out.append(dict(scenario="ao_pubsub", kwargs=kw, kind="deadlock", K=K, pred="quiescent_wrong", timeout=to, replay="ao_pubsub_replay"))
+    out.append(dict(scenario="ao_pubsub", kwargs=kw, kind="deadlock", K=deadlock_bound(kw, K), pred="quiescent_wrong", timeout=to, replay="ao_pubsub_replay"))
   return out
 
 
